@@ -1228,6 +1228,10 @@ class Wrapc(util.WrapperMixin):
                     fmt_result.c_val = wformat(
                         result_typemap.cxx_to_c, fmt_result
                     )
+                    if result_typemap.base == "string" and not CXX_ast.const:
+                        # c_str() is const, the declared result is not.
+                        fmt_result.c_val = "const_cast<char *>\t({})".format(
+                            fmt_result.c_val)
                     append_format(
                         return_code, "{c_rv_decl} =\t {c_val};", fmt_result
                     )
